@@ -85,7 +85,7 @@ def run_pass(world, pspec, vector):
     apply_config(cfg, vector)
     viol: list = []
     outcomes: dict = {}
-    stats = {"ops": 0, "ok": 0, "raised": 0, "depfail": 0, "faults_planned": 0, "faults_fired": {"lib": 0, "flt": 0},
+    stats = {"ops": 0, "ok": 0, "raised": 0, "depfail": 0, "faults_planned": 0, "faults_fired": {"lib": 0, "flt": 0, "alloc": 0},
              "natural_exc": {}, "mut_ops": 0, "i2_checks": 0, "i1_checks": 0, "observed": 0}
     pool_ops = world["pool"]
     progs = world["progs"]
@@ -298,6 +298,8 @@ def run_pass(world, pspec, vector):
             for fk in ctx.fired:
                 stats["faults_fired"][fk[0]] += 1
             results[k][i] = val
+            written = ops.written_refs(op)
+            wpriv = [v_ for t_, v_ in written if t_ == "m" and v_ in privs[k]]
             rb, ra = regb, vector._awkward_registered
             for t_, v_ in ops.op_refs(op):
                 dv = regviews[k][v_] if t_ == "r" and 0 <= v_ < i else (mviews[k].get(v_) if t_ == "m" else None)
@@ -307,13 +309,29 @@ def run_pass(world, pspec, vector):
             for key_ in ("bind", "defm"):
                 if key_ in op:
                     mviews[k][op[key_]] = (rb, ra)
-            oc = _outcome(val) + (rb, ra, _akdep(op, env, val))
+            oc = _outcome(val)
+            plain_digest = oc[0]
+            if wpriv:
+                # the state an in-place op leaves behind is part of its outcome (schedule independence of updates)
+                post = tuple(_outcome(privs[k][v_])[0] for v_ in wpriv)
+                oc = (snapshot.hashlib.sha256(repr((oc[0], post)).encode()).hexdigest()[:20], oc[1] + " | target after: " + ",".join(_outcome(privs[k][v_])[1][:60] for v_ in wpriv))
+                if isinstance(val, _Raised) and not isinstance(val.exc, ops.DependencyFailed):
+                    import vector.backends.object as _vob
+
+                    for v_ in wpriv:
+                        m_ = privs[k][v_]
+                        if isinstance(m_, _vob.VectorObject) and v_ in priv_snaps[k]:
+                            now_ = snapshot.snap(m_)
+                            before_ = priv_snaps[k][v_]
+                            if _strip_ids(now_) != _strip_ids(before_):
+                                viol.append(_viol("C15", "I5", "raised-but-changed", site, pname,
+                                                  f"{type(val.exc).__name__}: in-place op raised but m{v_} changed: {snapshot.snap_diff(before_, now_)}"))
+            oc = oc + (rb, ra, _akdep(op, env, val))
             outcomes[f"T:{k}:{i}"] = oc
             if want_cells:
                 cells.add(_cell(op, env, val))
-            res_dig[k][i] = oc[0]
+            res_dig[k][i] = plain_digest
             # rebinding / private definition
-            written = ops.written_refs(op)
             if written:
                 stats["mut_ops"] += 1
             if "bind" in op and not isinstance(val, _Raised):
@@ -409,6 +427,13 @@ def run_pass(world, pspec, vector):
     if pspec.get("want_diag"):
         out["diag"] = {k_: v_ for k_, v_ in snapshot.vector_owned_state().items()}
     return out
+
+
+def _strip_ids(sn):
+    """vobj snapshot without the identities of the coordinate tuples (an equal rebuilt tuple is 'unchanged')."""
+    if sn and sn[0] == "vobj":
+        return ("vobj", tuple(p if isinstance(p, str) else (p[0], p[2]) for p in sn[1]))
+    return sn
 
 
 def _install_reach_probe(acc):
